@@ -334,7 +334,7 @@ Proof.
   intros m1 rest. induction rest as [|[k e2] r IH]; intro out; [discriminate|].
   cbn [loop2 bind]. destruct (lenient_value p e2) eqn:E2; cbn [bind]; try discriminate.
   - destruct (zlookup k m1) as [e1|]; [|apply IH]. cbn [bind].
-    destruct (strict_value p e1) eqn:E1; cbn [bind]; try discriminate; [apply IH|].
+    destruct (strict_value Current e1) eqn:E1; cbn [bind]; try discriminate; [apply IH|].
     exfalso. eapply no_fuel_strict, E1.
   - exfalso. eapply no_fuel_lenient, E2.
 Qed.
@@ -372,7 +372,7 @@ Proof.
   intros m1 rest. induction rest as [|[k e2] r IH]; intros out e; [discriminate|].
   cbn [loop2 bind]. destruct (lenient_value p e2) eqn:E2; cbn [bind]; try discriminate.
   - destruct (zlookup k m1) as [e1|]; [|apply IH]. cbn [bind].
-    destruct (strict_value p e1) eqn:E1; cbn [bind]; try discriminate; [apply IH|].
+    destruct (strict_value Current e1) eqn:E1; cbn [bind]; try discriminate; [apply IH|].
     intro H. inversion H; subst. eapply strict_err, E1.
   - intro H. inversion H; subst. eapply lenient_err, E2.
 Qed.
